@@ -2,8 +2,8 @@
 # usage: tools/prescreen.sh <PROP> <n> [more props to run]  -- applies /tmp/mut2/<PROP>/out/mut<n>/patch.diff in that scratch worktree and
 # runs the quick check(s) of a scratch harness build against it (never touches /repo). See tools/scratch_dv.sh.
 P=$1; n=$2; shift 2
-W=/tmp/mut2/$P
-(cd $W && git checkout -q -- src && git checkout -q --detach ${BASE:-c69b85f} && git apply out/mut$n/patch.diff) || { echo "$P:$n apply failed"; exit 1; }
+W=${MUTROOT:-/tmp/mut2}/$P
+(cd $W && git checkout -q -- src && git checkout -q --detach ${BASE:-29b7b0d} && git apply out/mut$n/patch.diff) || { echo "$P:$n apply failed"; exit 1; }
 echo "== $P:$n $(jq -r .title $W/out/mut$n/meta.json | cut -c1-160)"
-"$(dirname "$0")/scratch_dv.sh" $W /tmp/dvx/$P $P "$@"
+"$(dirname "$0")/scratch_dv.sh" $W ${DVX:-/tmp/dvx}/$P $P "$@"
 (cd $W && git checkout -q -- src)
